@@ -12,7 +12,7 @@ type Mutex struct {
 
 func (m *Mutex) Lock() {
 	vrt.Point("lock", false, func() bool { return !m.held })
-	raceAcquire(m)
+	vrt.RaceAcquire(m)
 	m.held = true
 }
 
@@ -21,7 +21,7 @@ func (m *Mutex) TryLock() bool {
 	if m.held {
 		return false
 	}
-	raceAcquire(m)
+	vrt.RaceAcquire(m)
 	m.held = true
 	return true
 }
@@ -30,7 +30,7 @@ func (m *Mutex) Unlock() {
 	if !m.held && !vrt.Aborting() {
 		panic("vsync: unlock of unlocked mutex")
 	}
-	raceRelease(m)
+	vrt.RaceRelease(m)
 	m.held = false
 }
 
@@ -41,7 +41,7 @@ type RWMutex struct {
 
 func (m *RWMutex) Lock() {
 	vrt.Point("rwlock", false, func() bool { return !m.writer && m.readers == 0 })
-	raceAcquire(m)
+	vrt.RaceAcquire(m)
 	m.writer = true
 }
 
@@ -49,13 +49,13 @@ func (m *RWMutex) Unlock() {
 	if !m.writer && !vrt.Aborting() {
 		panic("vsync: unlock of unlocked rwmutex")
 	}
-	raceRelease(m)
+	vrt.RaceRelease(m)
 	m.writer = false
 }
 
 func (m *RWMutex) RLock() {
 	vrt.Point("rlock", false, func() bool { return !m.writer })
-	raceAcquire(m)
+	vrt.RaceAcquire(m)
 	m.readers++
 }
 
@@ -63,7 +63,7 @@ func (m *RWMutex) RUnlock() {
 	if m.readers <= 0 && !vrt.Aborting() {
 		panic("vsync: runlock of unlocked rwmutex")
 	}
-	raceRelease(m)
+	vrt.RaceRelease(m)
 	if m.readers > 0 {
 		m.readers--
 	}
